@@ -35,6 +35,9 @@ static void my_action(int who, int kind, struct _mod *m, const m_queue_t *q);
 #ifndef BLK
 #define BLK 0
 #endif
+#ifndef XFL
+#define XFL 0
+#endif
 #ifndef CTX_FLAGS
 #define CTX_FLAGS M_CTX_PERSIST
 #endif
@@ -125,7 +128,7 @@ static _Bool unread(void) {
 
 /* ---- steps ---- */
 #define REG(m)        { vf_mod(m, 0, NULL); g_st[m] = M_MOD_IDLE; }
-#define REGF(m)       { vf_mod(m, (m_mod_flags)(nondet_uint() & (M_MOD_ALLOW_REPLACE | M_MOD_DENY_PUB | M_MOD_DENY_SUB | M_MOD_DENY_CTX)), NULL); g_st[m] = M_MOD_IDLE; }
+#define REGF(m)       { vf_mod(m, (m_mod_flags)(XFL), NULL); g_st[m] = M_MOD_IDLE; }   /* flags: per-job constant (a symbolic flags word forks the heap shape in m_mod_register / module_dtor) */
 #define REFUSE(m)     { vf_start_ret[m] = false; }
 #define SUB(m, t)     { r_ = m_mod_ps_subscribe(vf_mods[m], tn[t], 0, NULL); VF_CHECK(r_ == 0, "subscription accepted"); g_sub[m][t] = 1; g_eversub[m] = 1; }
 #define UNSUB(m, t)   { r_ = m_mod_ps_unsubscribe(vf_mods[m], tn[t]); VF_CHECK(r_ == 0, "unsubscription accepted"); g_sub[m][t] = 0; }
@@ -136,6 +139,7 @@ static _Bool unread(void) {
 #define DEREG(m)      { int was = g_st[m]; m_mod_t *ref = m_mem_ref(vf_mods[m]); r_ = m_mod_deregister(&ref); VF_CHECK(r_ == 0 && ref == NULL, "deregistration accepted"); g_gone(m, M_MOD_ZOMBIE); if (was == M_MOD_RUNNING) occ(T_MX, m); else may(T_MX, m); }
 #define PILL(f, m)    { r_ = m_mod_ps_poisonpill(vf_mods[f], vf_mods[m]); VF_CHECK(r_ == 0, "poison pill accepted"); g_pill[m] = 1; }
 #define SETTICK       { g_tick_ns = nondet_u64(); VF_ASSUME(g_tick_ns != 0); r_ = m_ctx_set_tick(g_tick_ns); VF_CHECK(r_ == 0, "tick configured"); g_tick = 1; }
+#define SETTICKC(ns)  { g_tick_ns = (ns); r_ = m_ctx_set_tick(g_tick_ns); VF_CHECK(r_ == 0, "tick configured"); g_tick = 1; }
 #define FIRE          { vf_fire_timers(); if (g_loop && g_tick) g_fired = 1; }
 #define LOOP          { VF_ASSUME(!g_loop); do_dispatch(); }
 #define DISP          { do_dispatch(); }
